@@ -115,21 +115,60 @@ theorem ThreadStrings.forGlobal_spec (t : ThreadStrings) (g : Nat) (s : Str) (h 
 
 /-! ### global library table -/
 
-def LibsInv (g : GlobalLibs) : Prop := AllBelow g.used g.all.length ∧ MapBelow g.usedMap g.used.length
+theorem AllBelow.append_one' {l : List Nat} {n x : Nat} (h : AllBelow l n) (hx : x < n) :
+    AllBelow (l ++ [x]) n := by
+  intro y hy; simp only [List.mem_append, List.mem_singleton] at hy
+  rcases hy with hy | rfl
+  · exact h y hy
+  · exact hx
+
+def LibsInv (g : GlobalLibs) : Prop :=
+  AllBelow g.used g.all.length ∧ MapBelow g.usedMap g.used.length ∧
+  -- the used-lib map points at the entry of the library it is keyed by (improvement round)
+  ∀ kv ∈ g.usedMap, g.used[kv.2]? = some kv.1
 
 theorem GlobalLibs.handleFor_spec (g : GlobalLibs) (name : Str) (h : LibsInv g) :
     LibsInv (g.handleFor name).1 ∧ (g.handleFor name).2 < (g.handleFor name).1.all.length ∧
     g.all.length ≤ (g.handleFor name).1.all.length ∧ (g.handleFor name).1.used = g.used := by
-  unfold GlobalLibs.handleFor LibsInv AllBelow at *
-  grind
+  obtain ⟨h1, h2, h3⟩ := h
+  unfold GlobalLibs.handleFor
+  dsimp only
+  split
+  · rename_i hi
+    exact ⟨⟨h1, h2, h3⟩, hi, Nat.le_refl _, rfl⟩
+  · refine ⟨⟨?_, h2, h3⟩, by simp, by simp, rfl⟩
+    intro x hx
+    have := h1 x hx
+    simp; omega
 
 theorem GlobalLibs.indexForUsed_spec (g : GlobalLibs) (lib : Nat) (h : LibsInv g) (hl : lib < g.all.length) :
     LibsInv (g.indexForUsed lib).1 ∧ (g.indexForUsed lib).2 < (g.indexForUsed lib).1.used.length ∧
     g.used.length ≤ (g.indexForUsed lib).1.used.length ∧ (g.indexForUsed lib).1.all = g.all ∧
     (g.indexForUsed lib).1.symtabs = g.symtabs := by
-  have := @alookup_mem
-  unfold GlobalLibs.indexForUsed LibsInv AllBelow MapBelow at *
-  grind
+  obtain ⟨h1, h2, h3⟩ := h
+  unfold GlobalLibs.indexForUsed
+  cases hlk : alookup g.usedMap lib with
+  | some i => exact ⟨⟨h1, h2, h3⟩, h2.lookup hlk, Nat.le_refl _, rfl, rfl⟩
+  | none =>
+    refine ⟨⟨h1.append_one' hl, ?_, ?_⟩, by simp, by simp, rfl, rfl⟩
+    · intro kv hkv
+      simp only [List.mem_cons] at hkv
+      rcases hkv with rfl | hkv
+      · simp
+      · have := h2 kv hkv; simp; omega
+    · intro kv hkv
+      simp only [List.mem_cons] at hkv
+      rcases hkv with rfl | hkv
+      · simp
+      · exact getElem?_append_old _ (h3 kv hkv)
+
+/-- the returned index is the entry of `lib` in the used list -/
+theorem GlobalLibs.indexForUsed_get (g : GlobalLibs) (lib : Nat) (h : LibsInv g) :
+    (g.indexForUsed lib).1.used[(g.indexForUsed lib).2]? = some lib := by
+  unfold GlobalLibs.indexForUsed
+  cases hlk : alookup g.usedMap lib with
+  | some i => exact h.2.2 _ (alookup_mem _ _ _ hlk)
+  | none => simp
 
 theorem GlobalLibs.getLibName_some (g : GlobalLibs) (i : Nat) (h : LibsInv g) (hi : i < g.used.length) :
     ∃ s, g.getLibName i = some s := by
@@ -472,7 +511,10 @@ theorem FrameInv.mono {nStr nLibs nNs nStr' nLibs' nNs' : Nat} {subc subc' : Nat
 def NsInv (nStr nLibs : Nat) (ns : NativeSymbols) : Prop :=
   ns.sizes.length = ns.addrs.length ∧ ns.libs.length = ns.addrs.length ∧
   ns.names.length = ns.addrs.length ∧ AllBelow ns.libs nLibs ∧ AllBelow ns.names nStr ∧
-  MapBelow ns.map ns.addrs.length
+  MapBelow ns.map ns.addrs.length ∧
+  -- the map points at the row of the (lib, address) it is keyed by, and finds every row (improvement round)
+  (∀ kv ∈ ns.map, ns.libs[kv.2]? = some kv.1.1 ∧ ns.addrs[kv.2]? = some kv.1.2) ∧
+  (∀ (j l a : Nat), ns.libs[j]? = some l → ns.addrs[j]? = some a → ∃ j', alookup ns.map (l, a) = some j')
 
 theorem NsInv.mono {nStr nLibs nStr' nLibs' : Nat} {ns : NativeSymbols} (h : NsInv nStr nLibs ns)
     (h1 : nStr ≤ nStr') (h2 : nLibs ≤ nLibs') : NsInv nStr' nLibs' ns :=
@@ -483,23 +525,82 @@ theorem NativeSymbols.indexFor_spec (ns : NativeSymbols) (lib : Nat) (sym : Sym)
     ∃ ns' st' i name, ns.indexFor lib sym st = some (ns', st', i, name) ∧ TSInv st' ∧ st.n ≤ st'.n ∧
       NsInv st'.n nLibs ns' ∧ i < ns'.names.length ∧ name < st'.n ∧
       ns.names.length ≤ ns'.names.length := by
-  obtain ⟨a1, a2, a3, a4, a5, a6⟩ := hn
+  obtain ⟨a1, a2, a3, a4, a5, a6, a7, a8⟩ := hn
   unfold NativeSymbols.indexFor
-  split
-  · rename_i i hi
-    have hlt := a6.lookup hi
+  cases hlk : alookup ns.map (lib, sym.addr) with
+  | some i =>
+    simp only
+    have hlt := a6.lookup hlk
     have : i < ns.names.length := by omega
     rw [List.getElem?_eq_getElem this]
-    refine ⟨_, _, _, _, rfl, hs, Nat.le_refl _, ⟨a1, a2, a3, a4, a5, a6⟩, this, ?_, Nat.le_refl _⟩
+    refine ⟨_, _, _, _, rfl, hs, Nat.le_refl _, ⟨a1, a2, a3, a4, a5, a6, a7, a8⟩, this, ?_, Nat.le_refl _⟩
     exact a5 _ (List.getElem_mem this)
-  · have h1 := st.indexFor_spec sym.name hs
+  | none =>
+    simp only
+    have h1 := st.indexFor_spec sym.name hs
     refine ⟨_, _, _, _, rfl, h1.1, h1.2.2, ?_, by simp; omega, h1.2.1, by simp⟩
     refine ⟨by simp [a1], by simp [a2], by simp [a3], a4.append_one hl,
-      (a5.mono h1.2.2).append_one h1.2.1, ?_⟩
-    intro kv hkv; simp only [List.mem_cons] at hkv
-    rcases hkv with rfl | hkv
-    · simp
-    · have := a6 kv hkv; simp; omega
+      (a5.mono h1.2.2).append_one h1.2.1, ?_, ?_, ?_⟩
+    · intro kv hkv; simp only [List.mem_cons] at hkv
+      rcases hkv with rfl | hkv
+      · simp
+      · have := a6 kv hkv; simp; omega
+    · intro kv hkv; simp only [List.mem_cons] at hkv
+      rcases hkv with rfl | hkv
+      · simp [a2]
+      · obtain ⟨g1, g2⟩ := a7 kv hkv
+        exact ⟨getElem?_append_old _ g1, getElem?_append_old _ g2⟩
+    · intro j l a hl' ha'
+      simp only [alookup]
+      by_cases he : (lib, sym.addr) = (l, a)
+      · exact ⟨_, by rw [if_pos he]⟩
+      · rw [if_neg he]
+        simp only [getElem?_append_one] at hl' ha'
+        by_cases hj : j < ns.addrs.length
+        · rw [if_pos (by omega)] at hl'
+          rw [if_pos hj] at ha'
+          exact a8 j l a hl' ha'
+        · rw [if_neg (by omega)] at hl'
+          rw [if_neg hj] at ha'
+          split at ha'
+          · rw [if_pos (by omega)] at hl'
+            cases hl'; cases ha'
+            exact absurd rfl he
+          · cases ha'
+
+/-- the returned row is the row of `(lib, sym.addr)`; its size / name are `sym`'s if the pair was not yet
+registered (no row carries it), otherwise the row is untouched; columns are only appended -/
+theorem NativeSymbols.indexFor_get (ns : NativeSymbols) (lib : Nat) (sym : Sym) (st : ThreadStrings)
+    (nStr nLibs : Nat) (hn : NsInv nStr nLibs ns) (hs : StrInv st.table)
+    (r : NativeSymbols × ThreadStrings × Nat × Nat) (h : ns.indexFor lib sym st = some r) :
+    r.1.libs[r.2.2.1]? = some lib ∧ r.1.addrs[r.2.2.1]? = some sym.addr ∧ r.1.names[r.2.2.1]? = some r.2.2.2 ∧
+    ((∃ j : Nat, ns.libs[j]? = some lib ∧ ns.addrs[j]? = some sym.addr) → r.1 = ns ∧ r.2.1 = st) ∧
+    ((¬ ∃ j : Nat, ns.libs[j]? = some lib ∧ ns.addrs[j]? = some sym.addr) →
+      r.1.sizes[r.2.2.1]? = some sym.size ∧ r.2.1.table.strings[r.2.2.2]? = some sym.name) := by
+  obtain ⟨a1, a2, a3, a4, a5, a6, a7, a8⟩ := hn
+  unfold NativeSymbols.indexFor at h
+  cases hlk : alookup ns.map (lib, sym.addr) with
+  | some i =>
+    simp only [hlk] at h
+    split at h
+    · rename_i n hn'
+      cases h
+      obtain ⟨g1, g2⟩ := a7 _ (alookup_mem _ _ _ hlk)
+      refine ⟨g1, g2, hn', fun _ => ⟨rfl, rfl⟩, ?_⟩
+      intro hno
+      exact absurd ⟨i, g1, g2⟩ hno
+    · cases h
+  | none =>
+    simp only [hlk] at h
+    cases h
+    simp only
+    refine ⟨by simp [a2], by simp, by simp [a3], ?_, ?_⟩
+    · rintro ⟨j, hj1, hj2⟩
+      obtain ⟨j', hj'⟩ := a8 j _ _ hj1 hj2
+      rw [hlk] at hj'
+      cases hj'
+    · intro _
+      exact ⟨by simp [a1], (st.table.indexFor_get sym.name hs).1⟩
 
 /-! ### stack table -/
 
